@@ -178,9 +178,24 @@ func (x *g) scalar() string {
 		x.f("val:null")
 		return "null"
 	}
-	if x.chance(0.05) && len(x.vars) > 0 {
+	if x.chance(0.08) && len(x.vars) > 0 {
 		x.f("val:substitution")
-		return "${" + x.pick(x.vars) + "}"
+		v := "${" + x.pick(x.vars) + "}"
+		switch x.r.Intn(8) {
+		case 0:
+			x.f("val:substitution-dq")
+			return "\"" + v + "\""
+		case 1:
+			x.f("val:substitution-dq")
+			return "\"p " + v + " q\""
+		case 2:
+			return "'" + v + "'"
+		case 3:
+			return "p " + v + " q"
+		case 4:
+			return "|md t " + v + " |"
+		}
+		return v
 	}
 	if !x.o.Valid && x.chance(0.03) {
 		x.f("val:substitution-dangling")
@@ -431,6 +446,22 @@ func (x *g) edgeIndexStmt() string {
 	}
 	idx := x.pick([]string{"0", "0", "1", "*", "*", "7"})
 	s := fmt.Sprintf("(%s -> %s)[%s]", a, b, idx)
+	if x.chance(0.3) {
+		x.f("edge:index-container-key")
+		s = x.pick([]string{"*", "**", "a", "c", "*.*", "a*"}) + "." + s
+	}
+	if x.chance(0.25) {
+		// a numeric index and then a [*] index on glob keys of the same scope stack (glob contexts are compared
+		// with Key.Equals → EdgeIndex.Equals)
+		x.f("edge:index-numeric-then-glob")
+		pre := x.pick([]string{"", "*.", "c.", "a."})
+		first := fmt.Sprintf("%s(%s -> %s)[%s].style.stroke: red", pre, x.pick([]string{"a", "*", "a*"}), x.pick([]string{"b", "*"}), x.pick([]string{"0", "1"}))
+		second := fmt.Sprintf("%s(* -> *)[*].style.opacity: 0.4", x.pick([]string{"", "*.", "c.", "a."}))
+		if x.chance(0.5) {
+			return "c: {a -> b}\n" + first + "\n" + second
+		}
+		return first + "\n" + second
+	}
 	switch k := x.r.Intn(10); {
 	case k < 3:
 		return s + ".style.stroke: blue"
@@ -557,7 +588,16 @@ func (x *g) varsStmt() string {
 			b.WriteString(v + ": {\nin: " + x.pick([]string{"blue", "2", "x"}) + "\nm: {z: 1}\n}\n")
 			x.vars = append(x.vars, v+".in", v)
 		case k < 8:
-			b.WriteString(v + ": [p; q]\n")
+			switch x.r.Intn(3) {
+			case 0:
+				b.WriteString(v + ": [p; q]\n")
+			case 1:
+				x.f("vars:no-value")
+				b.WriteString(v + "\n")
+			default:
+				x.f("vars:null")
+				b.WriteString(v + ": null\n")
+			}
 			x.vars = append(x.vars, v)
 		case k < 9 && !x.o.Valid:
 			b.WriteString(v + x.anyValue() + "\n")
@@ -643,6 +683,12 @@ func (x *g) boardsStmt() string {
 			continue
 		}
 		b.WriteString(nm + ": {\n")
+		if x.chance(0.3) {
+			// connections at the top level of the board + an edge glob with a src/dst filter on them
+			x.f("boards:edge-glob-filter")
+			b.WriteString(x.pick([]string{"a -> b", "a -> b\nb -> c", "x.y -> a"}) + "\n")
+			b.WriteString("(* -> *)[*]: {\n" + x.pick([]string{"&src: a", "&dst: b", "!&src: a", "&src: x.y", "&dst: *", "&src.shape: circle"}) + "\nstyle.stroke: red\n}\n")
+		}
 		m := 1 + x.r.Intn(3)
 		x.depth++
 		for j := 0; j < m; j++ {
